@@ -166,14 +166,29 @@ def _case(draw):
     for _ in range(draw(st.integers(1, 3))):
         h = draw(st.sampled_from(helpers))
         in_nested = draw(st.booleans())
+        inner_outer = inner
+        # the operator lambda around the call may bind the very name a lambda / comprehension INSIDE the helper binds, and the
+        # arguments may use that name both free (the operator's variable) and as a binder of their own
+        import re as _re
+        body_binders = _re.findall(r"lambda (\w+):|for (\w+) in", h["body"])
+        body_binders = [a_ or b_ for a_, b_ in body_binders]
+        clash = in_nested and body_binders and {k_ for _, k_, _ in h["params"]} >= {"N", "S"} and draw(st.booleans())
+        if clash:
+            inner = draw(st.sampled_from(body_binders))
+            if inner == p:
+                inner, clash = inner_outer, False
         args = []
         for pn, pk, d in h["params"]:
             if pk == "N":
                 nested_calls = [f"{g['name']}({', '.join([p + '.n'] * len(g['params']))})" for g in helpers
                                 if g["ret"] == "N" and all(k == "N" for _, k, _ in g["params"])]
                 a = draw(st.sampled_from([f"{p}.n", f"{p}.m", "3", f"{p}.n * 2"] + ([inner, f"{inner} + 1"] if in_nested else []) + nested_calls))
+                if clash:
+                    a = draw(st.sampled_from([inner, f"{inner} + 1"]))
             elif pk == "S":
                 a = draw(st.sampled_from([f"{p}.xs", f"{p}.xs.Select(lambda {inner}: {inner} + 1)", f"{p}.xs.Where(lambda q: q > 1)"]))
+                if clash:
+                    a = draw(st.sampled_from([f"{p}.xs.Select(lambda {inner}: {inner} + 1)", f"[{inner} for {inner} in {p}.xs if {inner} > 1]", f"{p}.xs.Where(lambda {inner}: {inner} > 1)"]))
             else:
                 a = p
             args.append([pn, a, d])
@@ -202,6 +217,7 @@ def _case(draw):
         expr = f"{h['name']}({call})"
         if in_nested:
             expr = f"{p}.xs.Select(lambda {inner}: {expr})"
+        inner = inner_outer
         items.append(expr)
     if draw(st.integers(0, 4)) == 0:
         # two-level shape: the inner helper holds a lambda; the outer one passes an argument EXPRESSION whose names may be
